@@ -101,6 +101,12 @@ CHECKS = {
    text="TLC checks on every argument of up to 2 (thorough: 3) members over small types that decoding inverts the layout, that replacing one member's value leaves all other members' wires unchanged, that the textual (two's complement of the spelled number) and the typed reading agree and that the inferred size holds what is written. TLC-generated arguments (1..4 members: bool, intN/uintN of 1..32 bits, arrays and slices incl. empty and short literals) are pushed through Parse under five spellings, Set under two Go-type variants with a fresh and a reused result, InputSizes+InstantiateWithSizes+Parse of the unsized variants and Result (twice, argument compared before/after); the wires must equal the specification's. Random arguments with member widths 1..130 are recorded as observations and each is decided by IOEncTrace.tla; a deliberately corrupted observation must be rejected on every run.",
    note="Trusts TLC and the harness' mechanical conversions between bit sequences, spellings and Go values. Array spellings are hexadecimal with nibble-aligned element widths; strings and struct results are not decoded.",
    ref="5 C13"),
+ "C14": dict(
+   technique="TLA+ spec CircFile.tla (ParseMPCLC / ParseBristol as a transition system over ALL small files: declared counts, I/O sizes, gate records with arbitrary fields; invariants NoCrash, AcceptsOnlyWellFormed, RejectsOnlyIllFormed; liveness Terminates), its files replayed with the modelled verdict through the real parsers (CircFileGen.tla); Marshal/Parse/Marshal round trips and byte-level mutation judged by the property",
+   level="model_checking",
+   text="TLC starts from every file over a small alphabet (0..2 declared gates, 0..2 wires (thorough: 3), 4 input shapes, up to 2 records with every field value) for both formats and checks that the modelled parser never indexes outside the gate array, accepts exactly the well-formed files and always terminates; a second run without the gate-index check must reach the crash state. All these files are serialised in both formats and parsed by the real code: the outcome must be the model's, accepted circuits are compared gate by gate and re-marshalled byte for byte. Generated signatures (all scalar types, nested arrays, slices, struct arguments with compound members, empty/long/non-ASCII names, headers and names beyond the parser's 4096-byte buffer, INV-only circuits) and compiled programs are round-tripped in both formats; 3000 (thorough 40000) truncations, extensions, bit flips, digit changes, field splices and boundary counts of valid files must yield an error or a circuit passing an independent well-formedness check within 10 s.",
+   note="Trusts TLC and the harness' serialiser of abstract files. Declared sizes above a million are skipped.",
+   ref="5 C14"),
 }
 
 NOT_APPLICABLE = {}
